@@ -381,19 +381,33 @@ void tickit_window_destroy(TickitWindow *win)
   if(win->pen)
     tickit_pen_unref(win->pen);
 
-  for(TickitWindow *child = win->first_child; child; /**/) {
-    TickitWindow *next = child->next;
-
-    tickit_window_unref(child);
-    child->parent = NULL;
-    child = next;
-  }
-
-  if(win->parent)
-    _purge_hierarchy_changes(win);
-
+  /* Leave the tree first, while the path to the root still exists; this also
+   * forgets queued restacking requests about this window and those below it
+   */
   if(!win->is_closed)
     tickit_window_close(win);
+
+  /* A root window has no tree to leave, but takes its whole queue with it:
+   * requests naming windows that outlive the root would otherwise leak
+   */
+  if(win->is_root) {
+    TickitRootWindow *root = WINDOW_AS_ROOT(win);
+    while(root->hierarchy_changes) {
+      HierarchyChange *req = root->hierarchy_changes;
+      root->hierarchy_changes = req->next;
+      free(req);
+    }
+  }
+
+  while(win->first_child) {
+    TickitWindow *child = win->first_child;
+
+    /* Detach before dropping the reference: the unref may free the child */
+    win->first_child = child->next;
+    child->parent = NULL;
+    child->next = NULL;
+    tickit_window_unref(child);
+  }
 
   /* Root cleanup */
   if(win->is_root) {
@@ -407,13 +421,6 @@ void tickit_window_destroy(TickitWindow *win)
     tickit_term_unbind_event_id(root->term, root->event_ids[2]);
 
     tickit_term_unref(root->term);
-
-    /* Requests naming windows that outlive the root would otherwise leak */
-    while(root->hierarchy_changes) {
-      HierarchyChange *req = root->hierarchy_changes;
-      root->hierarchy_changes = req->next;
-      free(req);
-    }
   }
 
   DEBUG_LOGF("W*", "Window destroyed " WINDOW_PRINTF_FMT,
